@@ -230,6 +230,7 @@ def C18(ctx):
 def C12(ctx):
     k1_rules(ctx, "C12")
     deque.rules(ctx)
+    deque.stable_slot(ctx)
     return ("Decides the structural half of the Chase-Lev deque: publish order, decrement/restore-or-commit pairing in try_pop, last-item CAS, "
             "thief read-before-CAS, mask kind discipline and (by exhaustive finite evaluation of the loop-free index arithmetic) that grow() re-indexes "
             "the live range with the same mapping as get_entry from every top offset; memory orders incl. the four seq_cst sites.",
@@ -261,8 +262,9 @@ def C16(ctx):
     progress.rules(ctx)
     vyukov.reader_validation(ctx)
     queues.swing_cas_expected(ctx)
+    # of the k-FIFO rules only the index-width rule is a progress condition (an index that does not fit its field makes push/pop spin forever)
+    ctx.only_skip = ("KF.aba", "KF.protocol", "OWN.", "KF.region-predicate", "KF.tail-advance", "KF.scan-complete")
     queues.kfifo(ctx)
-    ctx.only_skip = ("KF.aba", "KF.protocol", "OWN.")
     return ("Decides: no wait construct (spin on a lock bit / flag / pending write, mutex acquisition) is reachable in the resolved call graph from any "
             "operation documented lock-free or wait-free, any guard operation of any reclaimer, seqlock::load with more than one slot or left_right::read; "
             "the bounded k-FIFO index fits its field (a solo livelock otherwise).", "a numeric bound on solo steps; loops whose termination rests on data-structure invariants")
